@@ -101,7 +101,7 @@ def register(reg):
     # the request handler of the main process (contract shared with C17): a request rewritten by an addon is what goes on - the
     # URL taken apart for a wrapper capability is the one read after the addon hook
     from contracts import c17c_contracts
-    c17c_contracts.register_p3(reg, PID, instances=(("@all", "quick", {}),), only_handle_request=True)
+    c17c_contracts.register_p3(reg, PID, instances=(("@all", "quick", {}),), only_handle_request=True, only_clauses=["'urlsplit'", "ncalls('urlsplit'"])
     # proxy side, handing an event over: the flow is held (intercepted) and registered under its id before its state is taken
     # and queued - the state comes back through set_state() in _pump_callbacks, so a snapshot taken while the flow was not yet
     # held would un-hold it there without waking whoever waits for the resume: the event would never be released
